@@ -24,10 +24,17 @@ user's screen shows = prompt text + the model's line, cursor on the model's
 cursor, whenever echo is on; nothing of the line when echo is off),
 NoSecretShown (no character typed while echo was off is ever sent to the
 terminal, unless the application switched echo on with it still in the input
-line), ChunkIndependent (the same keys sent unsplit give the same deliveries
-and the same final screen), NoCrash (no exception out of the editor).
+line), BellOnIllegal (one BEL in a chunk iff the model has an illegal key in
+it), HookArguments (registered key handlers see the model's line and cursor),
+NoCrash (no exception out of the editor); checks/x06.py adds ChunkIndependent
+(the same behaviour sent without the inner chunk boundaries gives the same
+deliveries and the same final screen).
 L2 (divergence): the editor's private line / cursor / kill buffer / history
 differ from the model's although nothing observable was wrong.
+
+script_tags() names the reported defects of the pinned tree a schedule runs
+into (from the schedule alone); checks/x06.py puts the tag into the
+violation's signature so that known_findings.json can list it.
 """
 
 import unicodedata
@@ -438,15 +445,40 @@ class Stop(Exception):
     pass
 
 
-def script_tags(log, consts):
+def early_wraps(start, line, width):
+    """indices of the wide characters of line that do not fit into the last
+    column and go to the next row as a whole (input starts at column start)"""
+    col, res = start, set()
+    for p, ch in enumerate(line):
+        wide = ch[0] == 'w'
+        if wide and col % width == width - 1:
+            res.add(p)
+            col += 1
+        col += 2 if wide else 1
+    return res
+
+
+def script_tags(log, consts, final=None, term='ansi', unsplit=False):
     """defects of the pinned tree that this schedule runs into (computed
-    from the schedule alone, never from what the code did): index of the
-    first step from which the real code cannot follow the repaired model"""
+    from the schedule alone, never from what the code did): tag -> index of
+    the first step from which the real code cannot follow the repaired model"""
     tags = {}
     maxlen = int(consts.get('MaxLen', 0))
+    widths = [int(consts['W1']), int(consts['W2'])]
     prev = None
     raw_in_cb = False
     stale_cur = False
+
+    def on_early_wrap(st):
+        if final is None or term == 'dumb' or not st or not st['echo'] or \
+                not st['lmode'] or not st['line']:
+            return False
+        start = 0
+        for ch in final['tty'][:st['ntty']]:
+            start = 0 if ch[0] == 'NL' else start + 1
+        ew = early_wraps(start, st['line'], widths[st['wsel'] - 1])
+        return bool(ew)
+
     for i, (lbl, st, ctx) in enumerate(log):
         kind = lbl[0]
         if kind == 'Api':
@@ -459,7 +491,7 @@ def script_tags(log, consts):
                 stale_cur = True
             if a == 'cooked' and stale_cur:
                 tags.setdefault('stale_cursor_after_handover', i)
-            if a == 'resize' and prev and prev['line'] and \
+            if a == 'resize' and prev and prev['line'] and term != 'dumb' and \
                     (not prev['echo'] or prev['cur'] < len(prev['line'])):
                 tags.setdefault('resize_cursor_not_at_end', i)
         elif kind in ('T', 'B'):
@@ -470,8 +502,12 @@ def script_tags(log, consts):
                     (lbl[-1] in PRINTABLE_END or lbl[-1] == '^Y'):
                 # an insertion into a line that is already over the limit
                 tags.setdefault('maxlen_negative_room', i)
-        if kind in ('Cut', 'Eof'):
+        if kind == 'Eof' or (kind == 'Cut' and not (
+                unsplit and i + 1 < len(log) and
+                log[i + 1][0][0] in ('T', 'B'))):
             raw_in_cb = False
+        if on_early_wrap(st):
+            tags.setdefault('early_wrap_bookkeeping', i)
         prev = st
     return tags
 
@@ -491,10 +527,10 @@ class Replay:
         self.hookcalls = []         # (key, line, pos) seen by the handlers
         self.hookexp = []
         self.lag = False            # output queued by an API call, not sent
-        self.ref = None
         self.fed = 0                # tty characters given to ref
         self.nbyte = 0
         self.chunks = 0
+        self.nochecks = False       # unsplit re-run: only the summary counts
 
     # ---- verdict helpers ----
     def viol(self, clause, what, i):
@@ -722,6 +758,8 @@ class Replay:
 
     def checkpoint(self, i, st, bells=None):
         self.check_crash(i)
+        if self.nochecks:
+            return
         self.check_secret(i)
         if bells is not None:
             for t in self.w.terms[:1]:
@@ -748,7 +786,6 @@ class Replay:
             w.open(self.deco.get('term', 'ansi'), width)
         self.refs = [Term(width, 40, True), Term(width, 40, False)]
         self.hooks = {'tab': 'none', 'bang': 'none', 'stab': 'none'}
-        self.kinds = {}
         self.seen = 0
         self.bells0 = 0
         try:
@@ -761,7 +798,7 @@ class Replay:
                 ('NoCrash', f'{type(exc).__name__}: {exc} '
                  f'{traceback.format_exc()[-600:]}', -1))
         finally:
-            self.summary = dict(out=self.observed_out(),
+            self.summary = dict(out=_merged(self.observed_out()),
                                 rows=w.terms[0].rows(), pos=w.terms[0].pos())
             w.close_session()
             w.pair.loop.exceptions.clear()
@@ -816,7 +853,9 @@ class Replay:
                 chunk += byte_of(tok, prev['nid'])
                 self.nbyte += 1
                 if tok in ('n', 'm2', 'w3') and prev['lmode'] and \
-                        not prev['echo']:
+                        not prev['echo'] and st['nid'] > prev['nid']:
+                    # (a character swallowed by an unfinished escape
+                    # sequence never gets a glyph of its own)
                     self.secret.add(glyph([tok[0], prev['nid']]))
                 if st['cb']:
                     ncb += 1
@@ -855,6 +894,11 @@ class Replay:
                 w.send_eof()
                 self.lag = True     # the erased input is not sent any more
                 self.checkpoint(i, st)
+                ed = w.editor()
+                hist = [text(h) for h in self.final['hist']]
+                if ed is not None and not self.divergences and \
+                        not self.nochecks and list(ed._history) != hist:
+                    self.div(f'history {ed._history}, model {hist}', i)
             prev = st
             i += 1
         if chunk:
@@ -869,6 +913,18 @@ class Replay:
             if seq == toks and prev['hook'].get(key, 'none') != 'none' and \
                     prev['lmode']:
                 self.hookexp.append((key, text(prev['line']), prev['cur']))
+
+
+def _merged(events):
+    """consecutive data_received payloads as one (chunking of input that
+    bypasses the editor follows the chunking of the input)"""
+    out = []
+    for ev in events:
+        if ev[0] == 'data' and out and out[-1][0] == 'data':
+            out[-1] = ['data', out[-1][1] + ev[1]]
+        else:
+            out.append(list(ev))
+    return out
 
 
 def _rows(grid, width):
